@@ -94,6 +94,16 @@ def ops(rng, tier, floats_only=False):
         for doc, exp in (("9ff609ff", "N:9:N@4"), ("83f609f6", "N:9:N@4"), ("9ff609f6ff", "N:9:N@5"), ("9fc10509c206ff", "5:9:6@7"), ("83c10509c206", "5:9:6@6"),
                          ("9ff609c206ff", "N:9:6@6"), ("9fc105f609ff", "err:type"), ("82f609", "N:9:N@3"), ("9ff6f609ff", "err:type")):
             out.append(f"dextra SkipRead S {doc} #D={exp.split('@')[0] + ('@%d' % (len(doc) // 2) if '@' in exp else '')}")
+        # a map-encoded reader of indices {0, 2} given a writer's {0, 1, 2, 3} (and other orders / framings), alone and in front of a sibling: its two
+        # fields, everything else skipped pair by pair, the position at the end of the map
+        for doc in ("a40001010202030304", "bf0001010202030304ff", "a40101000102030304", "a4030402030102000" + "1", "a3000101020203", "a200010203", "a5000101020203030404" + "05",
+                    "a400010161610203" + "0304", "a40001018201020203038101"):
+            out.append(f"dextra GapRead M {doc} #D=1,3@{len(doc) // 2}")
+            o = "82" + doc + "07"
+            out.append(f"dextra GapRead O {o} #D=1,3,7@{len(o) // 2}")
+            o = "9f" + doc + "07ff"
+            out.append(f"dextra GapRead O {o} #D=1,3,7@{len(o) // 2}")
+        out += ["dextra GapRead M a2000101" + "02 #D=err:missing", "dextra GapRead M a10001 #D=err:missing", "dextra GapRead M a3000101020203 #D=1,3@7"]
         for t_ in ("-", "61", "616263", "c3a9e282ac", "78" * 24):
             out.append(f"dextra CowS {t_} 7")
         # a three-state type whose nil value (K) is not what its decoder makes of `null` (C): a written `null` belongs to the type's decoder
@@ -114,10 +124,18 @@ def ops(rng, tier, floats_only=False):
     for _ in range(n):
         out.append(f"dextra {rng.choice(['FltA', 'FltM', 'FltE'])} {rng.randint(0, 255)} {rng.getrandbits(32):08x} {rng.getrandbits(64):016x}")
         out.append(f"dextra FltW {rng.getrandbits(64):016x}")
-    return out
+    # failed to_vec / to_vec_with calls in between (what they leave behind on the thread must not show in the bytes of the next value)
+    mixed = []
+    for i, o in enumerate(out):
+        if i % 9 == 4:
+            mixed.append(f"givesup {[0, 1, 22, 300][(i // 9) % 4]}")
+        mixed.append(o)
+    return mixed
 
 
 def judge(op, impl, model, spec):
+    if op.startswith("givesup"):
+        return "ok" if impl == "err" else "violation"
     w = [x for x in op.split(" ") if not x.startswith("#")]
     iw = impl.split(" ")
     if len(iw) != 4 or not iw[1].startswith("len=") or not iw[2].startswith("dec=") or not iw[3].startswith("pos="):
@@ -143,7 +161,7 @@ def stream(rng, tier, floats_only=False):
                 rule="dextra: #[derive(Encode, Decode, CborLen)] types with Box<Option<_>>, f32 / f64, Option<f64>, Cow<[u8]> (bytes codec) fields, array- and "
                      "map-encoded structs and enum variants: the value decoded from the type's own encoding is the value given bit for bit (NaN payloads, "
                      "signed zeros, None behind a Box), exactly its bytes are consumed and minicbor::len is their number (no model op)",
-                nontrivial=lambda op, impl: "dec=" in impl)
+                nontrivial=lambda op, impl: "dec=" in impl or impl == "err")
     st.shrinkable = False
     return st
 
